@@ -119,6 +119,9 @@ structure Graph where
   allName : Name
   /-- the modules the property quantifies over -/
   domain : List Mod
+  /-- a node that replaces the table entry of one module id (`none` in the generated graph): used to describe the
+  same tree on a host where an optional third-party module is absent / importable / broken (`Graph.withOpt`) -/
+  override : Option (Mod × Node)
 
 structure Err where
   exc : Exc
@@ -256,11 +259,41 @@ def State.remove (g : Graph) (s : State) (m : Mod) : State :=
 
 /-! ## the graph -/
 
-def Graph.node? (g : Graph) (m : Mod) : Option Node :=
+def Graph.baseNode? (g : Graph) (m : Mod) : Option Node :=
   if g.chunk = 0 then none else
   match g.nodes[m / g.chunk]? with
   | some c => c[m % g.chunk]?
   | none => none
+
+def Graph.node? (g : Graph) (m : Mod) : Option Node :=
+  match g.override with
+  | some (x, nd) => if m = x then some nd else g.baseNode? m
+  | none => g.baseNode? m
+
+/-- how an optional third-party module may present itself on a host -/
+inductive OptKind where
+  /-- not installed: no finder locates it -/
+  | absent
+  /-- installed, imports fine (binds nothing the tree looks at) -/
+  | stub
+  /-- installed but broken: its import raises ImportError (wrong ABI, missing shared library) -/
+  | importError
+  /-- installed, but one of ITS dependencies is missing: ModuleNotFoundError naming another module -/
+  | notFoundOther
+  deriving DecidableEq, Repr
+
+/-- the same tree on a host where module `x` presents itself as `k` -/
+def Graph.withOpt (g : Graph) (x : Mod) (k : OptKind) : Graph :=
+  let (par, last) := match g.baseNode? x with
+    | some nd => (nd.parent, nd.last)
+    | none => (none, 0)
+  let body : List Ev := match k with
+    | .absent => []
+    | .stub => []
+    | .importError => [.raise_ 0 .importError]
+    | .notFoundOther => [.raise_ 0 (.moduleNotFound g.nNodes)]
+  { g with override := some (x, { parent := par, last := last, exists_ := k != .absent, ioflo := false,
+                                   init := [], initOther := [], body := body }) }
 
 /-- the pseudo module id of the importing host program (`python -c "import m"`) -/
 def Graph.main (g : Graph) : Mod := g.nNodes
